@@ -263,6 +263,7 @@ func runStoreHistory(r *rand.Rand, o storeHistOpts, t *Trace) *Case {
 	}
 	session := 1
 	closed := false
+	failedFlushes := 0
 	for step := 0; step < o.nops; step++ {
 		x := r.Intn(100)
 		switch {
@@ -355,7 +356,42 @@ func runStoreHistory(r *rand.Rand, o storeHistOpts, t *Trace) *Case {
 				}
 				ser.handler(name, args...)
 			})
+			if failedFlushes < 3 && st.VerifMemtableCount() > 1 && r.Intn(5) == 0 {
+				// an I/O failure: the first file of the next segment cannot be created (a directory sits at
+				// its path). The Flush must report it; the retry below must then really write the data.
+				failedFlushes++
+				maxID := 0
+				for _, f := range segFiles(dir) {
+					if m := segFileRe.FindStringSubmatch(f); m != nil {
+						var id int
+						fmt.Sscanf(m[2], "%d", &id)
+						if id > maxID {
+							maxID = id
+						}
+					}
+				}
+				var obstacles []string
+				for id := maxID + 1; id <= maxID+8; id++ {
+					o := filepath.Join(dir, fmt.Sprintf("hybrid_%06d.bin.gz", id))
+					if os.Mkdir(o, 0755) == nil {
+						obstacles = append(obstacles, o)
+					}
+				}
+				fe := st.Flush()
+				for _, o := range obstacles {
+					os.Remove(o)
+				}
+				fcode := errCodeStore(fe)
+				if fe != nil && fcode == 0 {
+					fcode = 14
+				}
+				ops = append(ops, func(c *Case) { c.N(15).N(fcode) })
+				t.Stat("store.flush_io_failure")
+			}
 			e := st.Flush()
+			if d := holders() - h0; e == nil && d < gap {
+				gap = d // ... nor may a memtable be gone without a segment once Flush has returned nil
+			}
 			comet.VerifSetHandler(ser.handler)
 			code := errCodeStore(e)
 			ops = append(ops, func(c *Case) { c.N(3).N(code) })
@@ -483,20 +519,57 @@ func runStoreHistory(r *rand.Rand, o storeHistOpts, t *Trace) *Case {
 			fk := r.Intn(4)
 			cfgF := &comet.FusionConfig{VectorWeight: 1, TextWeight: 1, K: 60}
 			fu, _ := comet.NewFusion(fkinds[fk], cfgF)
-			s := st.NewSearch().WithK(k).WithFusion(fu)
+			// every option SETS its value; a re-configured builder keeps the last value only
+			decoy := func() bool {
+				if r.Intn(8) == 0 {
+					t.Stat("store.option_set_twice")
+					return true
+				}
+				return false
+			}
+			s := st.NewSearch()
+			if decoy() {
+				s = s.WithK(k + 5)
+			}
+			s = s.WithK(k)
+			if decoy() {
+				s = s.WithFusionKind(fkinds[(fk+1)%4])
+			}
+			s = s.WithFusion(fu)
 			nprobes := 1
 			if cfg.p.kind != 0 && r.Intn(3) == 0 {
 				nprobes = 1 + r.Intn(cfg.p.nlist+1)
+				if decoy() {
+					s = s.WithNProbes(nprobes + 1)
+				}
 				s = s.WithNProbes(nprobes)
 			}
 			if vq != nil {
+				if decoy() {
+					s = s.WithVector(histVec(r, cfg.p.dim, style))
+				}
 				s = s.WithVector(cloneVec(vq))
 			}
 			if len(tqs) > 0 {
+				if decoy() {
+					s = s.WithText("decoy words")
+				}
 				s = s.WithText(tqs...)
+			}
+			if cfg.hm && decoy() {
+				s = s.WithMetadata(comet.Eq("cat", "a"), comet.Exists("n"))
+				if len(fs) == 0 {
+					s = s.WithMetadata()
+				}
 			}
 			if len(fs) > 0 {
 				s = s.WithMetadata(fs...)
+			}
+			if cfg.hm && decoy() {
+				s = s.WithMetadataGroups(&comet.FilterGroup{Logic: comet.AND, Filters: []comet.Filter{comet.Eq("cat", "zz")}})
+				if len(gs) == 0 {
+					s = s.WithMetadataGroups()
+				}
 			}
 			if len(gs) > 0 {
 				s = s.WithMetadataGroups(gs...)
